@@ -54,6 +54,7 @@ CONFIG = {
         f"{SMC}:ChangeTarget.run_smc", f"{SMC}:SMCAlgorithm.random_weighted",
     ],
     "counters_required": ["particles_weight_checked", "particles_constraint_checked", "changetarget_particles_checked", "rw_address_checks", "evidence_tests"],
+    "counters_inconclusive": ["grey"],  # a statistical cell in the grey band (1e-9 <= stage-2 p < 1e-3) makes the run inconclusive
     "assumptions": [
         "float64 numpy/scipy reference densities of flip/categorical/normal; enumeration of <= 32 latent outcomes; multivariate-normal closed form for linear-Gaussian evidence",
         "the internal proposal of a static @gen program is ancestral sampling of the unconstrained choices (documented: importance weight = density of the constrained choices)",
@@ -348,8 +349,12 @@ def _close_arr(a, b, terms):
     return ok | both_inf
 
 
+_CASE = [""]
+
+
 def describe(sc):
     return {
+        "case": _CASE[0],
         "net": sc.net.describe(), "observed": ["/".join(sc.net.nodes[i].addr) for i in sc.obs],
         "algorithm": sc.alg, "K": sc.K, "proposal": sc.prop, "proposal_addresses": ["/".join(sc.net.nodes[i].addr) for i in sc.qidx],
         "path": sc.path, "calling_convention": {False: "spread", True: "packed", "scalar": "scalar"}[sc.conv], "retarget": bool(sc.retarget),
@@ -452,7 +457,7 @@ def check_collection(ctx, sc, rows, out, B):
     if not okl.all():
         b = int(np.argwhere(~okl)[0][0])
         ctx.violation(f"C26|op=get_log_marginal_likelihood_estimate|on=ParticleCollection|field=value|cond=particles-{'one' if K == 1 else 'many'}",
-                      detail=f"{lml[b]} != logmeanexp(weights) = {ref[b]}", weights=lw[b].tolist())
+                      detail=f"{lml[b]} != logmeanexp(weights) = {ref[b]}", weights=lw[b].tolist(), case=_CASE[0])
     ctx.evaluation(fingerprint=(sc.path, sc.alg, K, sc.prop, sc.net.sig(), tuple(sc.obs)), nontrivial=True, n=B * K)
 
 
@@ -555,6 +560,7 @@ def cell_plan(ci, seed):
 
 
 def identity_cell(ctx, ci, B):
+    _CASE[0] = f"id/{ci}"
     rng = ctx.child_rng(1, ci)
     path, alg, K, prop = cell_plan(ci, ctx.seed)
     if prop == "custom-partial" and path in ("csmc", "ct_csmc", "est"):
@@ -622,6 +628,7 @@ def _stat_plan(si, seed):
 
 
 def stat_cell(ctx, si, N, reps):
+    _CASE[0] = f"st/{si}"
     rng = ctx.child_rng(2, si)
     kind, alg, K, prop = _stat_plan(si, ctx.seed)
     path = {"smc": "smc", "ct_smc": "ct_smc", "lml": "lml", "lml_t": "lml_t", "sir": "rw", "csmc_est": "est"}[kind]
@@ -787,6 +794,21 @@ def stat_cell(ctx, si, N, reps):
 # ------------------------------------------------------------------------------- entry
 
 
+def _replay_kind(ctx):
+    """In replay mode (./check C26 --replay file) only the witness's kind of cell is re-run; the
+    worker already restricts my_share() to the witness's case index."""
+    if not getattr(ctx, "replay", None):
+        return None
+    try:
+        import json
+
+        with open(ctx.replay) as f:
+            k = str(json.load(f).get("case", "")).split("/")[0]
+        return k if k in ("id", "st") else None
+    except Exception:  # noqa: BLE001
+        return None
+
+
 def run(ctx):
     common.import_repo()
     R.selftest()
@@ -808,8 +830,13 @@ def run(ctx):
             order.append(("st", sts[si]))
             si += 1
     order += [("st", s) for s in sts[si:]]
-    for kind, idx in order:
-        if ctx.elapsed() > budget:
+    rk = _replay_kind(ctx)
+    for pos, (kind, idx) in enumerate(order):
+        if rk is not None and kind != rk:
+            continue
+        # the first identity cells and the first statistical cell of a shard always run (a loaded
+        # machine must not starve the required monitors); afterwards the time budget decides
+        if pos >= 3 and ctx.elapsed() > budget:
             ctx.count("cells_skipped_budget")
             continue
         if kind == "id":
